@@ -5,6 +5,7 @@
 //! usage: r2c <repo root> <functions.txt> <output dir (coq/Gen)>
 #![allow(dead_code, unused_mut)]
 mod calls;
+mod effects;
 mod expr;
 mod stmt;
 mod tr;
@@ -109,6 +110,73 @@ fn split_spec(s: &str) -> Vec<String> {
     out
 }
 
+/// identifiers occurring in a token stream
+fn idents_of(ts: proc_macro2::TokenStream, out: &mut BTreeSet<String>) {
+    for t in ts {
+        match t {
+            proc_macro2::TokenTree::Ident(i) => {
+                out.insert(i.to_string());
+            }
+            proc_macro2::TokenTree::Group(g) => idents_of(g.stream(), out),
+            _ => {}
+        }
+    }
+}
+
+/// one arm of a macro_rules! definition with every `$name` replaced by the identifier `M_name` (or by the tokens
+/// bound in `bind`) and every repetition `$( .. ) sep *` replaced by one copy of its content
+fn expand_template(ts: proc_macro2::TokenStream, bind: &BTreeMap<String, proc_macro2::TokenStream>, prefix: &str) -> proc_macro2::TokenStream {
+    use proc_macro2::{Group, Ident, TokenStream, TokenTree};
+    let toks: Vec<TokenTree> = ts.into_iter().collect();
+    let mut out = TokenStream::new();
+    let mut i = 0;
+    while i < toks.len() {
+        match &toks[i] {
+            TokenTree::Punct(p) if p.as_char() == '$' && i + 1 < toks.len() => match &toks[i + 1] {
+                TokenTree::Ident(id) => {
+                    let n = id.to_string();
+                    match bind.get(&n) {
+                        Some(b) => {
+                            // like a macro fragment: an invisible group keeps `as u32 << n` from parsing as `u32<..`
+                            let mut g = Group::new(proc_macro2::Delimiter::None, b.clone());
+                            g.set_span(id.span());
+                            out.extend(std::iter::once(TokenTree::Group(g)))
+                        }
+                        None => out.extend(std::iter::once(TokenTree::Ident(Ident::new(&format!("{}{}", prefix, n), id.span())))),
+                    }
+                    i += 2;
+                }
+                TokenTree::Group(g) => {
+                    out.extend(expand_template(g.stream(), bind, prefix));
+                    i += 2;
+                    // optional separator, then the repetition operator
+                    let is_rep = |t: &TokenTree| matches!(t, TokenTree::Punct(p) if matches!(p.as_char(), '*' | '+' | '?'));
+                    if i < toks.len() && is_rep(&toks[i]) {
+                        i += 1;
+                    } else if i + 1 < toks.len() && matches!(&toks[i], TokenTree::Punct(_)) && is_rep(&toks[i + 1]) {
+                        i += 2;
+                    }
+                }
+                _ => {
+                    out.extend(std::iter::once(toks[i].clone()));
+                    i += 1;
+                }
+            },
+            TokenTree::Group(g) => {
+                let mut ng = Group::new(g.delimiter(), expand_template(g.stream(), bind, prefix));
+                ng.set_span(g.span());
+                out.extend(std::iter::once(TokenTree::Group(ng)));
+                i += 1;
+            }
+            t => {
+                out.extend(std::iter::once(t.clone()));
+                i += 1;
+            }
+        }
+    }
+    out
+}
+
 struct FoundFn<'s> {
     sig: &'s Signature,
     block: &'s Block,
@@ -127,7 +195,7 @@ fn find_fn<'s>(src: &'s Source, self_ty: Option<&str>, trait_spec: Option<&str>,
                 }
             }
             (Item::Impl(im), Some(st)) => {
-                if is_test_cfg(&im.attrs) || type_last_ident(&im.self_ty).as_deref() != Some(st.split('<').next().unwrap()) {
+                if is_test_cfg(&im.attrs) || type_last_ident(&im.self_ty).as_deref() != Some(st.split('<').next().unwrap().rsplit('.').next().unwrap()) {
                     continue;
                 }
                 let ok = match (&im.trait_, trait_spec) {
@@ -191,6 +259,8 @@ struct Module {
 }
 
 struct Driver {
+    /// file of the declaration being processed (tie-break for type names)
+    cur_file: String,
     repo: String,
     sources: BTreeMap<String, Source>,
     tables: Tables,
@@ -200,6 +270,7 @@ struct Driver {
 
 impl Driver {
     fn load(&mut self, file: &str) -> R<()> {
+        self.cur_file = file.to_string();
         if self.sources.contains_key(file) {
             return Ok(());
         }
@@ -210,10 +281,118 @@ impl Driver {
         Ok(())
     }
 
+    /// `macro <file> <name> <arm> as <vfile> [$x=tokens ..]`: the arm's body becomes a virtual source file
+    fn add_macro(&mut self, file: &str, name: &str, arm: usize, vfile: &str, binds: &[&str]) -> R<()> {
+        self.load(file)?;
+        let src = &self.sources[file];
+        let mut mac: Option<&ItemMacro> = None;
+        for it in all_items(&src.file.items) {
+            if let Item::Macro(m) = it {
+                if m.mac.path.is_ident("macro_rules") && m.ident.as_ref().map(|i| i == name).unwrap_or(false) {
+                    mac = Some(m);
+                }
+            }
+        }
+        let mac = mac.ok_or_else(|| format!("macro_rules! {} not found in {}", name, file))?;
+        // arms: (pattern) => { body } ;
+        let toks: Vec<proc_macro2::TokenTree> = mac.mac.tokens.clone().into_iter().collect();
+        let mut bodies = vec![];
+        let mut i = 0;
+        while i + 3 < toks.len() + 0 {
+            if let (proc_macro2::TokenTree::Group(_), proc_macro2::TokenTree::Punct(a), proc_macro2::TokenTree::Punct(b), proc_macro2::TokenTree::Group(body)) = (&toks[i], &toks[i + 1], &toks[i + 2], &toks[i + 3]) {
+                if a.as_char() == '=' && b.as_char() == '>' {
+                    bodies.push(body.stream());
+                    i += 4;
+                    if i < toks.len() && matches!(&toks[i], proc_macro2::TokenTree::Punct(p) if p.as_char() == ';') {
+                        i += 1;
+                    }
+                    continue;
+                }
+            }
+            return Err(format!("macro_rules! {}: cannot split into arms", name));
+        }
+        let body = bodies.get(arm).cloned().ok_or_else(|| format!("macro_rules! {} has {} arms, arm {} requested", name, bodies.len(), arm))?;
+        let mut bind = BTreeMap::new();
+        let mut prefix = "M_".to_string();
+        for b in binds {
+            if let Some(p) = b.strip_prefix("prefix=") {
+                prefix = p.to_string();
+                continue;
+            }
+            let (k, v) = b.split_once('=').ok_or_else(|| format!("macro binding `{}` is not $name=tokens", b))?;
+            let ts: proc_macro2::TokenStream = v.replace('~', " ").parse().map_err(|e| format!("binding `{}`: {}", b, e))?;
+            bind.insert(k.trim_start_matches('$').to_string(), ts);
+        }
+        let expanded = expand_template(body, &bind, &prefix);
+        let parsed: File = syn::parse2(expanded).map_err(|e| format!("macro_rules! {} arm {}: the instantiated body does not parse as items: {}", name, arm, e))?;
+        let text = src.text.clone();
+        self.sources.insert(vfile.to_string(), Source { text, file: parsed });
+        Ok(())
+    }
+
+    /// the macro parameters a definition depends on: those it mentions, and those of the template definitions it mentions
+    fn mvars_of(&self, ts: proc_macro2::TokenStream, self_ty: Option<&str>, file: &str) -> Vec<String> {
+        let mut ids = BTreeSet::new();
+        idents_of(ts, &mut ids);
+        if let Some(st) = self_ty {
+            ids.insert(st.to_string());
+        }
+        let mut used: BTreeSet<String> = BTreeSet::new();
+        for m in self.tables.mvars.iter() {
+            if ids.contains(&m.name) {
+                used.insert(m.name.clone());
+            }
+        }
+        // abstract types: their row parameter
+        for (n, x) in self.tables.externs.iter() {
+            if ids.contains(n) {
+                if let Some(r) = &x.row {
+                    used.insert(r.clone());
+                }
+            }
+        }
+        for f in self.tables.fns.iter() {
+            if !f.mvars.is_empty() && f.file == file && ids.contains(&f.name) {
+                used.extend(f.mvars.iter().cloned());
+            }
+        }
+        for c in self.tables.consts.iter() {
+            if !c.mvars.is_empty() && c.file == file && ids.contains(c.key.rsplit("::").next().unwrap()) {
+                used.extend(c.mvars.iter().cloned());
+            }
+        }
+        self.tables.mvars.iter().filter(|m| used.contains(&m.name)).map(|m| m.name.clone()).collect()
+    }
+
+    fn mvar_binders(&self, mvars: &[String], tr: &mut Tr, env: &mut Env) -> R<String> {
+        let mut b = String::new();
+        for n in mvars {
+            let m = self.tables.mvars.iter().find(|m| m.name == *n).unwrap();
+            let c = tr.fresh(n);
+            let t = match &m.coq_ty {
+                Some(t) => t.clone(),
+                None => self.tables.coq_ty(&m.ty)?,
+            };
+            write!(b, " ({} : {})", c, t).unwrap();
+            env.push(n, var(c, m.ty.clone()));
+        }
+        Ok(b)
+    }
+
     fn conv(&self, t: &Type, generics: &BTreeSet<String>, self_ty: Option<&str>, extra_adt: Option<&str>) -> R<Ty> {
-        let adts = &self.tables.adts;
-        let ext = &self.tables.externs;
-        conv_ty(t, &|n| adts.contains_key(n) || Some(n) == extra_adt || ext.contains_key(n.strip_prefix("extern:").unwrap_or(n)), generics, self_ty)
+        let tabs = &self.tables;
+        let cf = self.cur_file.clone();
+        conv_ty(
+            t,
+            &|n| {
+                if Some(n) == extra_adt || extra_adt.map(|x| x.ends_with(&format!(".{}", n))).unwrap_or(false) {
+                    return Some(Ty::Adt(extra_adt.unwrap().to_string()));
+                }
+                tabs.resolve_name(n, &cf, self_ty)
+            },
+            generics,
+            self_ty,
+        )
     }
 
     /// `MajorMinor<i32>` + `impl<T> MajorMinor<T>` -> {T: i32}
@@ -251,7 +430,7 @@ impl Driver {
     fn add_struct(&mut self, file: &str, name: &str, map: &[&str], eqb: Option<String>, module: &str) -> R<()> {
         self.load(file)?;
         let src = &self.sources[file];
-        let base = name.split('<').next().unwrap();
+        let base = name.split('<').next().unwrap().rsplit('.').next().unwrap();
         let st = all_items(&src.file.items)
             .into_iter()
             .find_map(|i| if let Item::Struct(s) = i { if s.ident == base { Some(s) } else { None } } else { None })
@@ -290,7 +469,10 @@ impl Driver {
         }
         let cname = sanitize(name);
         let generated = map.is_empty();
-        let (coq_ty, ctor, projs): (String, String, Vec<String>) = if generated {
+        let (coq_ty, ctor, projs): (String, String, Vec<String>) = if map.len() == 2 && map[1] == "newtype" && fields.len() == 1 {
+            // a tuple struct over one field, represented by that field
+            (map[0].to_string(), String::new(), vec![String::new()])
+        } else if generated {
             (cname.clone(), format!("Build_{}", cname), fields.iter().map(|(f, _)| format!("{}_{}", cname, f)).collect())
         } else {
             if map.len() != fields.len() + 2 {
@@ -299,6 +481,10 @@ impl Driver {
             (map[0].to_string(), map[1].to_string(), map[2..].iter().map(|s| s.to_string()).collect())
         };
         let line = st.span().start().line;
+        // a generated record leaves out the fields whose type is outside the subset (then it cannot be constructed)
+        let has_opaque = generated && fields.iter().any(|(_, t)| matches!(t, Ty::Opaque(_)));
+        let ctor = if has_opaque { "-".to_string() } else { ctor };
+        let projs: Vec<String> = fields.iter().zip(projs).map(|((_, t), p)| if generated && matches!(t, Ty::Opaque(_)) { "-".to_string() } else { p }).collect();
         let info = StructInfo {
             name: name.to_string(),
             coq_ty,
@@ -318,7 +504,7 @@ impl Driver {
         let src = &self.sources[file];
         let en = all_items(&src.file.items)
             .into_iter()
-            .find_map(|i| if let Item::Enum(s) = i { if s.ident == name { Some(s) } else { None } } else { None })
+            .find_map(|i| if let Item::Enum(s) = i { if s.ident == name.rsplit('.').next().unwrap() { Some(s) } else { None } } else { None })
             .ok_or_else(|| format!("enum `{}` not found in {}", name, file))?;
         let gens = Self::generics_of(&en.generics);
         let generated = map.is_empty();
@@ -344,20 +530,22 @@ impl Driver {
                 fields.push((f.ident.as_ref().map(|x| x.to_string()), ty));
             }
             let ctor = if generated {
-                format!("{}_{}", name, vn)
+                format!("{}_{}", sanitize(name), vn)
             } else {
                 ctor_map.get(&vn).cloned().ok_or_else(|| format!("enum `{}`: variant `{}` has no mapping (the enum changed?)", name, vn))?
             };
             variants.push(VariantInfo { name: vn, ctor, fields });
         }
+        let eqb = if eqb.is_none() && variants.iter().all(|v| v.fields.is_empty()) { Some(format!("{}_eqb", sanitize(name))) } else { eqb };
+        let auto_eqb = eqb.as_deref() == Some(format!("{}_eqb", sanitize(name)).as_str());
         let line = en.span().start().line;
         let info = EnumInfo {
             name: name.to_string(),
-            coq_ty: if generated { name.to_string() } else { map[0].to_string() },
+            coq_ty: if generated { sanitize(name) } else { map[0].to_string() },
             variants,
             eqb,
             generated,
-            module: module.to_string(),
+            module: if auto_eqb { format!("auto-eqb:{}", module) } else { module.to_string() },
             origin: format!("{}:{}", file, line),
         };
         self.tables.adts.insert(name.to_string(), Adt::Enum(info));
@@ -406,6 +594,46 @@ impl Driver {
             }
             let mut v = V { gens: &gens, found: vec![] };
             syn::visit::Visit::visit_block(&mut v, ff.block);
+            // `callee::<A, B>(..)` where the callee abstracts `R::CONST`: the caller needs `A::CONST` when A is generic here
+            {
+                struct C<'g> {
+                    gens: &'g BTreeSet<String>,
+                    fns: &'g Vec<FnInfo>,
+                    found: Vec<String>,
+                }
+                impl<'ast, 'g> syn::visit::Visit<'ast> for C<'g> {
+                    fn visit_expr_call(&mut self, c: &'ast ExprCall) {
+                        if let Expr::Path(p) = &*c.func {
+                            let seg = p.path.segments.last().unwrap();
+                            if let PathArguments::AngleBracketed(a) = &seg.arguments {
+                                let targs: Vec<String> = a.args.iter().filter_map(|g| if let GenericArgument::Type(Type::Path(tp)) = g { tp.path.get_ident().map(|i| i.to_string()) } else { None }).collect();
+                                for f in self.fns.iter().filter(|f| f.name == seg.ident.to_string() && !f.assoc_params.is_empty() && f.generic_names.len() == targs.len()) {
+                                    for (k, _) in f.assoc_params.iter() {
+                                        let mut parts: Vec<&str> = k.split("::").collect();
+                                        if let Some(gi) = f.generic_names.iter().position(|g| g == parts[0]) {
+                                            if self.gens.contains(&targs[gi]) {
+                                                parts[0] = &targs[gi];
+                                                let nk = parts.join("::");
+                                                if !self.found.contains(&nk) {
+                                                    self.found.push(nk);
+                                                }
+                                            }
+                                        }
+                                    }
+                                }
+                            }
+                        }
+                        syn::visit::visit_expr_call(self, c);
+                    }
+                }
+                let mut c = C { gens: &gens, fns: &self.tables.fns, found: vec![] };
+                syn::visit::Visit::visit_block(&mut c, ff.block);
+                for k in c.found {
+                    if !v.found.contains(&k) {
+                        v.found.push(k);
+                    }
+                }
+            }
             for k in v.found {
                 let last = k.rsplit("::").next().unwrap().to_string();
                 match self.tables.assoc_tys.get(&last) {
@@ -414,8 +642,17 @@ impl Driver {
                 }
             }
         }
+        let mvars = {
+            let mut ts = quote::ToTokens::to_token_stream(ff.sig);
+            ts.extend(quote::ToTokens::to_token_stream(ff.block));
+            if let Some(t) = ff.impl_self {
+                ts.extend(quote::ToTokens::to_token_stream(t));
+            }
+            self.mvars_of(ts, st, file)
+        };
         let mut self_kind = SelfKind::None;
         let mut params = vec![];
+        let mut mut_params: Vec<bool> = vec![];
         for a in ff.sig.inputs.iter() {
             match a {
                 FnArg::Receiver(r) => {
@@ -435,8 +672,13 @@ impl Driver {
                         Pat::Wild(_) => "_".to_string(),
                         _ => return Err(format!("{} `{}`: parameter pattern is not an identifier", file, spec)),
                     };
-                    let ty = self.conv(&pt.ty, &gens, st, None).map_err(|e| format!("{} `{}`: parameter `{}`: {}", file, spec, n, e))?;
+                    let (pty, is_mut): (&Type, bool) = match &*pt.ty {
+                        Type::Reference(r) if r.mutability.is_some() => (&*r.elem, true),
+                        t => (t, false),
+                    };
+                    let ty = self.conv(pty, &gens, st, None).map_err(|e| format!("{} `{}`: parameter `{}`: {}", file, spec, n, e))?;
                     params.push((n, subst_ty(&ty, &isub)));
+                    mut_params.push(is_mut);
                 }
             }
         }
@@ -445,16 +687,23 @@ impl Driver {
             ReturnType::Type(_, t) => {
                 // `Self::Output` of operator impls
                 let so = tokens_nospace(&**t);
-                if so == "Self::Output" {
+                let inner_opt = so.starts_with("Option<Self::") && so.ends_with('>');
+                let assoc_name: Option<String> = if inner_opt { Some(so["Option<Self::".len()..so.len() - 1].to_string()) } else { so.strip_prefix("Self::").map(|x| x.to_string()) };
+                if let Some(an) = assoc_name.filter(|a| a.chars().all(|c| c.is_alphanumeric() || c == '_')) {
                     let mut found = None;
                     for ii in ff.impl_items.unwrap_or(&[]) {
                         if let ImplItem::Type(it) = ii {
-                            if it.ident == "Output" {
+                            if it.ident == an.as_str() {
                                 found = Some(self.conv(&it.ty, &gens, st, None)?);
                             }
                         }
                     }
-                    found.ok_or_else(|| format!("{} `{}`: Self::Output not found in the impl", file, spec))?
+                    let f = found.ok_or_else(|| format!("{} `{}`: associated type Self::{} not found in the impl", file, spec, an))?;
+                    if inner_opt {
+                        Ty::Option(Box::new(f))
+                    } else {
+                        f
+                    }
                 } else {
                     self.conv(t, &gens, st, None).map_err(|e| format!("{} `{}`: return type: {}", file, spec, e))?
                 }
@@ -482,7 +731,7 @@ impl Driver {
         if self.tables.fns.iter().any(|f| f.coq == coq) {
             return Err(format!("{} `{}`: Coq name `{}` is already used (give `as=`)", file, spec, coq));
         }
-        let info = FnInfo { key: spec.to_string(), name: name.clone(), coq, self_ty: self_ty.clone(), trait_name: trait_spec.clone(), self_kind, const_generics, assoc_params, params, ret };
+        let info = FnInfo { key: spec.to_string(), name: name.clone(), coq, self_ty: self_ty.clone(), trait_name: trait_spec.clone(), self_kind, const_generics, assoc_params, params, mut_params, mvars, generic_names: ff.sig.generics.params.iter().filter_map(|p| if let GenericParam::Type(t) = p { Some(t.ident.to_string()) } else { None }).collect(), file: file.to_string(), ret, fuel: false };
         self.tables.fns.push(info);
         let idx = self.tables.fns.len() - 1;
         self.jobs.push(FnJob { file: file.to_string(), self_ty, trait_spec, name, info_idx: idx, module });
@@ -490,7 +739,7 @@ impl Driver {
         Ok(())
     }
 
-    fn add_const(&mut self, file: &str, spec: &str, module: usize) -> R<()> {
+    fn add_const(&mut self, file: &str, spec: &str, coq_as: Option<String>, module: usize) -> R<()> {
         self.load(file)?;
         let parts = split_spec(spec);
         let (st, name) = match parts.len() {
@@ -503,7 +752,7 @@ impl Driver {
         for it in all_items(&src.file.items) {
             match (it, &st) {
                 (Item::Const(c), None) if c.ident == name => found.push((&c.ty, &c.expr, c.span().start().line, c.span().end().line)),
-                (Item::Impl(im), Some(t)) if im.trait_.is_none() && type_last_ident(&im.self_ty).as_deref() == Some(t) => {
+                (Item::Impl(im), Some(t)) if type_last_ident(&im.self_ty).as_deref() == Some(t.rsplit('.').next().unwrap()) => {
                     for ii in im.items.iter() {
                         if let ImplItem::Const(c) = ii {
                             if c.ident == name {
@@ -519,30 +768,65 @@ impl Driver {
             return Err(format!("{} const `{}`: {} definitions found", file, spec, found.len()));
         }
         let (ty, ex, l1, l2) = found[0];
+        let mvars = self.mvars_of(quote::ToTokens::to_token_stream(ex), None, file);
         let ty = self.conv(ty, &BTreeSet::new(), st.as_deref(), None)?;
-        let mut tr = Tr { t: &self.tables, self_ty: st.clone(), ret_ty: ty.clone(), mut_self: false, counter: BTreeMap::new(), mut_methods: BTreeSet::new(), generic_tys: BTreeSet::new(), subst: BTreeMap::new() };
-        let v = tr.pure(ex, &Env::default(), Some(&ty)).map_err(|e| format!("{} const `{}`: {}", file, spec, e))?;
+        let mut tr = Tr { t: &self.tables, self_ty: st.clone(), ret_ty: ty.clone(), mut_self: false, counter: BTreeMap::new(), mut_methods: BTreeSet::new(), generic_tys: BTreeSet::new(), subst: BTreeMap::new(), fuel: false, needs_fuel: false, fuel_var: String::new(), fuel_names: BTreeSet::new(), mutarg_names: BTreeSet::new(), mut_params: vec![], ret_coq: String::new(), loops: vec![], fn_assigned: BTreeSet::new(), cur_file: file.to_string(), fn_coq: String::new(), loop_counter: 0, aux_defs: vec![], turbofish_types: None };
+        let mut cenv = Env::default();
+        let cbinders = self.mvar_binders(&mvars, &mut tr, &mut cenv)?;
+        let v = tr.pure(ex, &cenv, Some(&ty)).map_err(|e| format!("{} const `{}`: {}", file, spec, e))?;
         join(&v.ty, &ty).map_err(|e| format!("{} const `{}`: {}", file, spec, e))?;
-        let coq = format!("src_{}", spec.replace("::", "_"));
+        let coq = coq_as.unwrap_or_else(|| format!("src_{}", sanitize(&spec.replace("::", "_"))));
         let text: String = src.text.lines().skip(l1 - 1).take(l2 - l1 + 1).collect::<Vec<_>>().join("\n");
         let head = format!("(* {}:{}-{}  const {}  hash:{:016x} *)", file, l1, l2, spec, fnv1a(&text));
         let cty = self.tables.coq_ty(&ty)?;
-        let body = format!("{}\nDefinition {} : {} := {}.\n", head, coq, cty, v.s);
-        self.tables.consts.push(ConstInfo { key: spec.to_string(), coq, ty });
+        let body = format!("{}\nDefinition {}{} : {} := {}.\n", head, coq, cbinders, cty, v.s);
+        self.tables.consts.push(ConstInfo { key: spec.to_string(), coq, ty, mvars, file: file.to_string() });
         let idx = self.tables.consts.len() - 1;
         self.modules[module].decls.push(Decl::Const(idx, file.to_string(), body));
         Ok(())
     }
 
-    fn translate_fn(&self, job: &FnJob) -> R<String> {
+    /// returns the generated text and whether the function turned out to need fuel
+    fn translate_fn(&self, job: &FnJob) -> R<(String, bool)> {
+        match self.translate_fn_with(job, self.tables.fns[job.info_idx].fuel) {
+            Ok(s) => Ok((s, self.tables.fns[job.info_idx].fuel)),
+            Err((e, needs_fuel)) => {
+                if needs_fuel && !self.tables.fns[job.info_idx].fuel {
+                    self.translate_fn_with(job, true).map(|s| (s, true)).map_err(|(e, _)| e)
+                } else {
+                    Err(e)
+                }
+            }
+        }
+    }
+
+    fn translate_fn_with(&self, job: &FnJob, fuel: bool) -> std::result::Result<String, (String, bool)> {
+        let nf = |e: String| (e, false);
         let src = &self.sources[&job.file];
-        let ff = find_fn(src, job.self_ty.as_deref(), job.trait_spec.as_deref(), &job.name)?;
+        let ff = find_fn(src, job.self_ty.as_deref(), job.trait_spec.as_deref(), &job.name).map_err(nf)?;
         let info = &self.tables.fns[job.info_idx];
         let mut gens = Self::generics_of(&ff.sig.generics);
         if let Some(g) = ff.impl_generics {
             gens.extend(Self::generics_of(g));
         }
         let mut_methods: BTreeSet<String> = self.tables.fns.iter().filter(|f| f.self_kind == SelfKind::Mut).map(|f| f.name.clone()).collect();
+        let mut fuel_names: BTreeSet<String> = self.tables.fns.iter().filter(|f| f.fuel).map(|f| f.name.clone()).collect();
+        for f in self.tables.fns.iter().filter(|f| f.fuel) {
+            if let Some(st) = &f.self_ty {
+                fuel_names.insert(format!("{}::{}", st.rsplit('.').next().unwrap().split('<').next().unwrap(), f.name));
+            }
+        }
+        let mutarg_names: BTreeSet<String> = self.tables.fns.iter().filter(|f| f.has_mut_params()).map(|f| f.name.clone()).collect();
+        let rtys = info.result_tys();
+        let mut rcs = vec![];
+        for t in rtys.iter() {
+            rcs.push(self.tables.coq_ty(t).map_err(nf)?);
+        }
+        let ret_coq = match rcs.len() {
+            0 => "unit".to_string(),
+            1 => rcs[0].clone(),
+            _ => format!("({})", rcs.join(" * ")),
+        };
         let mut tr = Tr {
             t: &self.tables,
             self_ty: job.self_ty.clone(),
@@ -551,55 +835,77 @@ impl Driver {
             counter: BTreeMap::new(),
             mut_methods,
             generic_tys: gens,
-            subst: self.instance_subst(job.self_ty.as_deref(), ff.impl_self)?,
+            subst: self.instance_subst(job.self_ty.as_deref(), ff.impl_self).map_err(nf)?,
+            fuel,
+            needs_fuel: false,
+            fuel_var: "fuel'".into(),
+            fuel_names,
+            mutarg_names,
+            mut_params: info.params.iter().zip(info.mut_params.iter()).filter(|(_, m)| **m).map(|((n, _), _)| n.clone()).collect(),
+            ret_coq: ret_coq.clone(),
+            loops: vec![],
+            fn_assigned: BTreeSet::new(),
+            cur_file: job.file.clone(),
+            fn_coq: info.coq.clone(),
+            loop_counter: 0,
+            aux_defs: vec![],
+            turbofish_types: None,
         };
+        tr.fn_assigned = tr.effects_stmts(&ff.block.stmts).assigned;
         let mut env = Env::default();
         let mut binders = String::new();
+        if fuel {
+            tr.counter.insert("fuel".into(), 1);
+            binders.push_str(" (fuel' : nat)");
+        }
+        binders.push_str(&self.mvar_binders(&info.mvars, &mut tr, &mut env).map_err(nf)?);
         for (n, t) in info.const_generics.iter() {
             let c = tr.fresh(n);
-            write!(binders, " ({} : {})", c, self.tables.coq_ty(t)?).unwrap();
-            env.push(n, Var { coq: c, ty: t.clone() });
+            write!(binders, " ({} : {})", c, self.tables.coq_ty(t).map_err(nf)?).unwrap();
+            env.push(n, var(c, t.clone()));
         }
         for (n, t) in info.assoc_params.iter() {
             let c = tr.fresh(&n.replace("::", "_"));
-            write!(binders, " ({} : {})", c, self.tables.coq_ty(t)?).unwrap();
-            env.push(n, Var { coq: c, ty: t.clone() });
+            write!(binders, " ({} : {})", c, self.tables.coq_ty(t).map_err(nf)?).unwrap();
+            env.push(n, var(c, t.clone()));
         }
         if info.self_kind != SelfKind::None {
-            let t = Ty::Adt(job.self_ty.clone().unwrap());
+            let stn = job.self_ty.clone().unwrap();
+            let t = self.tables.resolve_name(&stn, &job.file, Some(&stn)).unwrap_or(Ty::Adt(stn));
             let c = tr.fresh("self");
-            write!(binders, " ({} : {})", c, self.tables.coq_ty(&t)?).unwrap();
-            env.push("self", Var { coq: c, ty: t });
+            write!(binders, " ({} : {})", c, self.tables.coq_ty(&t).map_err(nf)?).unwrap();
+            env.push("self", var(c, t));
         }
         for (n, t) in info.params.iter() {
             if n == "_" {
                 let c = tr.fresh("unused");
-                write!(binders, " ({} : {})", c, self.tables.coq_ty(t)?).unwrap();
+                write!(binders, " ({} : {})", c, self.tables.coq_ty(t).map_err(nf)?).unwrap();
                 continue;
             }
             let c = tr.fresh(n);
-            write!(binders, " ({} : {})", c, self.tables.coq_ty(t)?).unwrap();
-            env.push(n, Var { coq: c, ty: t.clone() });
+            write!(binders, " ({} : {})", c, self.tables.coq_ty(t).map_err(nf)?).unwrap();
+            env.push(n, var(c, t.clone()));
         }
         let ret = info.ret.clone();
         let env_top = env.clone();
-        let body = tr.stmts_k(&ff.block.stmts, &env, Some(&ret), &|tr, v| tr.finish(v, &env_top))?;
-        let ret_coq = if info.self_kind == SelfKind::Mut {
-            let st = self.tables.coq_ty(&Ty::Adt(job.self_ty.clone().unwrap()))?;
-            if info.ret == Ty::Unit {
-                st
-            } else {
-                format!("({} * {})", st, self.tables.coq_ty(&info.ret)?)
-            }
-        } else {
-            self.tables.coq_ty(&info.ret)?
+        let body = match tr.stmts_k(&ff.block.stmts, &env, Some(&ret), &|tr, v| tr.finish(v, &env_top)) {
+            Ok(b) => b,
+            Err(e) => return Err((e, tr.needs_fuel)),
         };
         let l1 = ff.sig.span().start().line;
         let l2 = ff.block.span().end().line;
         let text: String = src.text.lines().skip(l1 - 1).take(l2 - l1 + 1).collect::<Vec<_>>().join("\n");
         let mut out = String::new();
         writeln!(out, "(* {}:{}-{}  {}  hash:{:016x} *)", job.file, l1, l2, info.key, fnv1a(&text)).unwrap();
-        writeln!(out, "Definition {}{} : {} :=", info.coq, binders, ret_coq).unwrap();
+        if fuel {
+            writeln!(out, "(* contains a loop (or calls a function that does): explicit fuel, None = fuel exhausted *)").unwrap();
+        }
+        for a in tr.aux_defs.iter() {
+            out.push_str(&indent0(a));
+            out.push('\n');
+        }
+        let full_ret = if fuel { format!("option {}", ret_coq) } else { ret_coq };
+        writeln!(out, "Definition {}{} : {} :=", info.coq, binders, full_ret).unwrap();
         out.push_str(&indent(&body));
         out.push_str(".\n");
         writeln!(out, "#[global] Hint Unfold {} : src.", info.coq).unwrap();
@@ -614,8 +920,12 @@ impl Driver {
                     writeln!(out, "(* struct {} ({}) = model record {} (constructor {}, projections {}) *)", s.name, s.origin, s.coq_ty, s.ctor, s.fields.iter().map(|f| format!("{}:{}", f.name, f.proj)).collect::<Vec<_>>().join(" ")).unwrap();
                 } else {
                     writeln!(out, "(* struct {} ({}) *)", s.name, s.origin).unwrap();
-                    let fs: Vec<String> = s.fields.iter().map(|f| Ok(format!("{} : {}", f.proj, self.tables.coq_ty(&f.ty)?))).collect::<R<Vec<_>>>()?;
-                    writeln!(out, "Record {} : Type := {} {{ {} }}.", s.coq_ty, s.ctor, fs.join("; ")).unwrap();
+                    let fs: Vec<String> = s.fields.iter().filter(|f| f.proj != "-").map(|f| Ok(format!("{} : {}", f.proj, self.tables.coq_ty(&f.ty)?))).collect::<R<Vec<_>>>()?;
+                    let ctor = if s.ctor == "-" { format!("Build_{}", s.coq_ty) } else { s.ctor.clone() };
+                    if s.ctor == "-" {
+                        writeln!(out, "(* fields outside the subset are left out: {} *)", s.fields.iter().filter(|f| f.proj == "-").map(|f| f.name.clone()).collect::<Vec<_>>().join(", ")).unwrap();
+                    }
+                    writeln!(out, "Record {} : Type := {} {{ {} }}.", s.coq_ty, ctor, fs.join("; ")).unwrap();
                 }
             }
             Adt::Enum(e) => {
@@ -633,10 +943,29 @@ impl Driver {
                     }
                     out.push_str(".\n");
                 }
+                if e.module.starts_with("auto-eqb:") {
+                    // structural equality of a field-less enum (derive(PartialEq))
+                    let n = e.eqb.clone().unwrap();
+                    writeln!(out, "Definition {} (a b : {}) : bool :=\n  match a, b with", n, e.coq_ty).unwrap();
+                    for v in e.variants.iter() {
+                        writeln!(out, "  | {}, {} => true", v.ctor, v.ctor).unwrap();
+                    }
+                    if e.variants.len() > 1 {
+                        writeln!(out, "  | _, _ => false").unwrap();
+                    }
+                    writeln!(out, "  end.").unwrap();
+                }
             }
         }
         Ok(out)
     }
+}
+
+fn indent0(body: &str) -> String {
+    let mut lines = body.lines();
+    let first = lines.next().unwrap_or("").to_string();
+    let rest: Vec<&str> = lines.collect();
+    format!("{}\n{}", first, indent(&rest.join("\n")))
 }
 
 /// indentation by nesting depth of let/match/if lines (purely cosmetic)
@@ -690,7 +1019,7 @@ fn main() {
     }
     let cfg = std::fs::read_to_string(&args[2]).expect("cannot read configuration");
     let outdir = Path::new(&args[3]);
-    let mut d = Driver { repo: args[1].clone(), sources: BTreeMap::new(), tables: Tables::default(), modules: vec![], jobs: vec![] };
+    let mut d = Driver { cur_file: String::new(), repo: args[1].clone(), sources: BTreeMap::new(), tables: Tables::default(), modules: vec![], jobs: vec![] };
     // core::cmp::Ordering = Coq's comparison
     d.tables.adts.insert(
         "Ordering".into(),
@@ -749,7 +1078,7 @@ fn main() {
                 }
                 r
             }
-            "const" if w.len() == 3 => d.add_const(w[1], w[2], cur),
+            "const" if w.len() == 3 => d.add_const(w[1], w[2], opts.get("as").cloned(), cur),
             "assoc" if w.len() == 3 => {
                 let t: R<Type> = syn::parse_str(w[2]).map_err(|e| e.to_string());
                 t.and_then(|t| d.conv(&t, &BTreeSet::new(), None, None)).map(|t| {
@@ -778,12 +1107,70 @@ fn main() {
                 match err {
                     Some(e) => Err(e),
                     None => {
-                        d.tables.externs.insert(w[1].to_string(), ExternInfo { name: w[1].to_string(), coq_ty: w[3].replace('~', " "), methods });
+                        d.tables.externs.insert(w[1].to_string(), ExternInfo { name: w[1].to_string(), coq_ty: w[3].replace('~', " "), methods, row: None, consts: vec![], statics: vec![] });
                         Ok(())
                     }
                 }
             }
             "fn" if w.len() == 3 => d.add_fn(w[1], w[2], opts.get("as").cloned(), cur),
+            // macro <file> <macro name> <arm> as <virtual file> [$name=tokens ...]
+            "macro" if w.len() >= 6 && w[4] == "as" => match w[3].parse::<usize>() {
+                Ok(arm) => d.add_macro(w[1], w[2], arm, w[5], &w[6..]),
+                Err(_) => Err("macro arm index".to_string()),
+            },
+            // mvar <M_name> <rust type>
+            "mvar" if w.len() == 3 => {
+                let t: R<Type> = syn::parse_str(w[2]).map_err(|e| e.to_string());
+                t.and_then(|t| d.conv(&t, &BTreeSet::new(), None, None)).map(|t| {
+                    d.tables.mvars.push(MVar { name: w[1].to_string(), ty: t, coq_ty: None });
+                })
+            }
+            // mtype <M_name> = <coq type of values> <coq type of the row> [const:NAME:type:coqfn | method:name:type:coqfn | fn:name:argtypes:rettype:coqfn]...
+            "mtype" if w.len() >= 5 && w[2] == "=" => {
+                let mut x = ExternInfo { name: w[1].to_string(), coq_ty: w[3].replace('~', " "), methods: vec![], row: Some(w[1].to_string()), consts: vec![], statics: vec![] };
+                let mut err = None;
+                let ty_of = |d: &Driver, s: &str| -> R<Ty> {
+                    if s == "Self" {
+                        return Ok(Ty::Extern("Self".into()));
+                    }
+                    let t: Type = syn::parse_str(s).map_err(|e| e.to_string())?;
+                    d.conv(&t, &BTreeSet::new(), None, None)
+                };
+                for m in &w[5..] {
+                    let ps: Vec<&str> = m.split(':').collect();
+                    let r: R<()> = (|| {
+                        match (ps[0], ps.len()) {
+                            ("const", 4) => x.consts.push((ps[1].to_string(), ty_of(&d, ps[2])?, ps[3].replace('~', " "))),
+                            ("method", 4) => x.methods.push((ps[1].to_string(), ty_of(&d, ps[2])?, ps[3].replace('~', " "))),
+                            ("fn", 5) => {
+                                let mut at = vec![];
+                                for a in ps[2].split(',').filter(|a| !a.is_empty()) {
+                                    at.push(ty_of(&d, a)?);
+                                }
+                                x.statics.push((ps[1].to_string(), at, ty_of(&d, ps[3])?, ps[4].replace('~', " ")))
+                            }
+                            _ => return Err(format!("mtype member `{}`", m)),
+                        }
+                        Ok(())
+                    })();
+                    if let Err(e) = r {
+                        err = Some(e);
+                        break;
+                    }
+                }
+                match err {
+                    Some(e) => Err(e),
+                    None => {
+                        if w[4] == "-" {
+                            x.row = None;
+                        } else {
+                            d.tables.mvars.push(MVar { name: w[1].to_string(), ty: Ty::Infer, coq_ty: Some(w[4].replace('~', " ")) });
+                        }
+                        d.tables.externs.insert(w[1].to_string(), x);
+                        Ok(())
+                    }
+                }
+            }
             _ => Err(format!("cannot parse configuration line: {}", line)),
         };
         if let Err(e) = res {
@@ -802,19 +1189,32 @@ fn main() {
     for mi in 0..d.modules.len() {
         let mut body = String::new();
         let mut errors = d.modules[mi].errors.clone();
-        for decl in d.modules[mi].decls.iter() {
-            match decl {
+        for di in 0..d.modules[mi].decls.len() {
+            enum Out {
+                Text(String),
+                Err(String),
+                Fn(String, usize, bool),
+            }
+            let out = match &d.modules[mi].decls[di] {
                 Decl::Adt(n) => match d.emit_adt(n) {
-                    Ok(s) => body.push_str(&s),
-                    Err(e) => errors.push(e),
+                    Ok(s) => Out::Text(s),
+                    Err(e) => Out::Err(e),
                 },
-                Decl::Const(_, _, text) => body.push_str(text),
+                Decl::Const(_, _, text) => Out::Text(text.clone()),
                 Decl::Fn(j) => {
                     let job = &d.jobs[*j];
                     match d.translate_fn(job) {
-                        Ok(s) => body.push_str(&s),
-                        Err(e) => errors.push(format!("{} `{}`: {}", job.file, d.tables.fns[job.info_idx].key, e)),
+                        Ok((s, fuel)) => Out::Fn(s, job.info_idx, fuel),
+                        Err(e) => Out::Err(format!("{} `{}`: {}", job.file, d.tables.fns[job.info_idx].key, e)),
                     }
+                }
+            };
+            match out {
+                Out::Text(s) => body.push_str(&s),
+                Out::Err(e) => errors.push(e),
+                Out::Fn(s, idx, fuel) => {
+                    body.push_str(&s);
+                    d.tables.fns[idx].fuel = fuel;
                 }
             }
             body.push('\n');
